@@ -570,6 +570,11 @@ func retResults(r *ssa.Return) []ssa.Value {
 			// single value
 		}
 		for i := range out {
+			// a result that this function already tested (`if err != nil { return err }`) keeps its own identity:
+			// the dominating test says more than the helper's return expression
+			if dominatedByNonNilEdge(out[i], r.Block()) {
+				continue
+			}
 			out[i] = resolveHelperResult(out[i])
 		}
 	}
